@@ -126,6 +126,34 @@ def HeatEq2D (κ : ℝ) (T : TField2) (x y t : ℝ) : Prop :=
   deriv (fun s => T x y s) t
     = κ * (deriv (fun u => deriv (fun v => T v y t) u) x + deriv (fun u => deriv (fun v => T x v t) u) y)
 
+/-- steady heat conduction with a uniform source in a cylinder, `(1/r)(r T_r)_r + T_zz + g₀/k = 0`.
+(hutchens2.py prints the radial operator as `(1/r²)(r² T_r)_r`; the problem is stated "in cylindrical
+coordinates" and solved with the modified Bessel function I₀, i.e. for the operator written here.) -/
+def PoissonCyl (src : ℝ) (T : ℝ → ℝ → ℝ) (r z : ℝ) : Prop :=
+  deriv (fun u => deriv (fun v => T v z) u) r + 1 / r * deriv (fun v => T v z) r
+    + deriv (fun u => deriv (fun v => T r v) u) z + src = 0
+
+/-- residual of the heat equation in plane polar coordinates,
+`T_t - κ (T_rr + T_r / r + T_θθ / r²)`  (cylindrical_sandwich.py) -/
+def heatResPolar (κ : ℝ) (T : ℝ → ℝ → ℝ → ℝ) (r θ t : ℝ) : ℝ :=
+  deriv (fun s => T r θ s) t
+    - κ * (deriv (fun u => deriv (fun v => T v θ t) u) r + 1 / r * deriv (fun v => T v θ t) r
+           + 1 / r ^ 2 * deriv (fun u => deriv (fun v => T r v t) u) θ)
+
+/-- the modified Bessel function of order 0 as an atom: all that is assumed of `scipy.special.i0` is that it is
+twice differentiable and satisfies `x² y'' + x y' - x² y = 0` -/
+structure IsModBessel0 (I I' I'' : ℝ → ℝ) : Prop where
+  d1 : ∀ x, HasDerivAt I (I' x) x
+  d2 : ∀ x, HasDerivAt I' (I'' x) x
+  ode : ∀ x, x ^ 2 * I'' x + x * I' x - x ^ 2 * I x = 0
+
+/-- a radial factor of the cylindrical sandwich, `R(r) = J_k(α r) + β Y_k(α r)`, as an atom: twice differentiable
+for r > 0 with Bessel's equation `r² R'' + r R' + (α² r² - k²) R = 0` -/
+structure IsBesselRadial (k α : ℝ) (R R' R'' : ℝ → ℝ) : Prop where
+  d1 : ∀ r, 0 < r → HasDerivAt R (R' r) r
+  d2 : ∀ r, 0 < r → HasDerivAt R' (R'' r) r
+  ode : ∀ r, 0 < r → r ^ 2 * R'' r + r * R' r + (α ^ 2 * r ^ 2 - k ^ 2) * R r = 0
+
 end
 
 end EPV.Spec.Heat
